@@ -41,6 +41,8 @@ import PercevalModel.Lemmas.C04More
 import PercevalModel.Lemmas.C04Trim
 import PercevalModel.Lemmas.C04Session
 import PercevalModel.Lemmas.C04Generic
+import PercevalModel.Lemmas.C04TrimDet
+import PercevalModel.Lemmas.C04Apriori
 import PercevalModel.Lemmas.C03Mass
 import PercevalModel.Props.C02
 
@@ -1465,6 +1467,288 @@ example : (probsSvdGen PM.C02.exU uCfg [⟨1, gTerms⟩]).phys =
         exact PM.C03.svNorm2_ne_zero _ ⟨⟨1, [[1, 0]]⟩, by simp [gTerms], by decide⟩)
     (by simp) (by intro g hg; simp only [List.mem_singleton] at hg; subst hg; norm_num)
   ⟨h.1, h.2.1⟩
+
+/-! ### probability trimming on the detector path (`Model/C04TrimDet.lean`, part A)
+
+`probsSvdDetθ eng P c ds members` is `probs_svd(svd, detectors)` at precision `P` for any detector layout.  With a
+detector that is not photon-number resolving the mask is off, the inputs and the per-member products are trimmed as on
+the fast path, and `simulate_detectors` multiplies, state by state of the *merged* normalised dict, the per-mode
+detection rows under `prob_threshold = max(θ, θ/(10·p))` (no threshold at all when every detector is a threshold
+detector).  The photon filter after detection subtracts from `phys_perf` only what survived the thresholds, so here
+`physical_perf` is NOT exact any more.  Statements, all against the specification (conditioning of the distribution of
+detected patterns `detectedFull`), in terms of exactly computable trimmed masses:
+`trimmedMassDet` (everything the three thresholds removed), `trimmedPassDet` (its part above the photon filter),
+`trimmedRetainedDet` (its part that would have been retained). -/
+
+/-- **trim_only_dominates_detectors.**  For every predicate on detected patterns, the (un-normalised) list computed
+under the thresholds holds at most the probability the list computed without thresholds holds; both are
+non-negative; above the photon filter the latter is the specification's distribution. -/
+theorem trim_only_dominates_detectors (eng : Fock → D) (P : Prec) (c : Cfg) (ds : List Det) (members : List Member)
+    (N : ℕ) (hp : allPnr ds = false) (he : EngOK eng c.m members) (hmix : MixOK members)
+    (hN : ∀ mb ∈ members, mb.n ≤ N) (hK : KernsOK N (ds.map Det.kern)) :
+    (∀ f : Fock → Bool, mass (restrict f (detTrimU eng P c ds members)) ≤ mass (restrict f (detFullU eng c ds members))) ∧
+    NN (detTrimU eng P c ds members) ∧ NN (detFullU eng c ds members) ∧
+    restrict (physOk (cond c)) (detectedFull eng c.m ds members) =
+      restrict (physOk (cond c)) (detFullU eng c ds members) :=
+  let F := trimDetFacts eng P c ds members N hp he hmix hN hK
+  ⟨F.dom, F.nnT, F.nnE, F.specPass⟩
+
+/-- the trimmed masses are ordered: `0 ≤ retained ≤ passing ≤ total`, and the loss in front of the detectors is
+part of the total -/
+theorem trimmed_det_order (eng : Fock → D) (P : Prec) (c : Cfg) (ds : List Det) (members : List Member) (N : ℕ)
+    (hp : allPnr ds = false) (he : EngOK eng c.m members) (hmix : MixOK members)
+    (hN : ∀ mb ∈ members, mb.n ≤ N) (hK : KernsOK N (ds.map Det.kern)) :
+    0 ≤ trimmedRetainedDet eng P c ds members ∧
+    trimmedRetainedDet eng P c ds members ≤ trimmedPassDet eng P c ds members ∧
+    trimmedPassDet eng P c ds members ≤ trimmedMassDet eng P c ds members ∧
+    physInputs c members - mass (Xθ eng P c members) ≤ trimmedMassDet eng P c ds members :=
+  trimmedDet_order eng P c ds members N hp he hmix hN hK
+
+/-- **physical_perf_trim_bound_detectors.**  With a non-PNR detector the physical performance reported at precision
+`P` is within the trimmed mass of P(detected pattern passes the photon filter) — in either direction: trimmed patterns
+below the filter are not subtracted (too high), the renormalisation in front of the detectors inflates what is
+subtracted (too low). -/
+theorem physical_perf_trim_bound_detectors (eng : Fock → D) (P : Prec) (c : Cfg) (ds : List Det)
+    (members : List Member) (N : ℕ) (hp : allPnr ds = false) (he : EngOK eng c.m members) (hmix : MixOK members)
+    (hN : ∀ mb ∈ members, mb.n ≤ N) (hK : KernsOK N (ds.map Det.kern)) :
+    |(probsSvdDetθ eng P c ds members).phys - physPerf (cond c) (detectedFull eng c.m ds members)| ≤
+      trimmedMassDet eng P c ds members :=
+  trimDet_phys_bound eng P c ds members N hp he hmix hN hK
+
+/-- **logical_perf_trim_bound_detectors.**  Whenever some detected pattern survives the thresholds and the photon
+filter, the logical performance is within `(input-side loss)/(input-side physical performance) + (trimmed passing
+mass)/(physical performance)` of the specification's P(heralds ∧ post-selection | filter passed). -/
+theorem logical_perf_trim_bound_detectors (eng : Fock → D) (P : Prec) (c : Cfg) (ds : List Det)
+    (members : List Member) (N : ℕ) (hp : allPnr ds = false) (he : EngOK eng c.m members) (hmix : MixOK members)
+    (hN : ∀ mb ∈ members, mb.n ≤ N) (hK : KernsOK N (ds.map Det.kern))
+    (hpass : mass (restrict (physOk (cond c)) (detTrimU eng P c ds members)) ≠ 0) :
+    |(probsSvdDetθ eng P c ds members).logical - logicalPerf (cond c) (detectedFull eng c.m ds members)| ≤
+      (physInputs c members - mass (Xθ eng P c members)) / physInputs c members +
+      trimmedPassDet eng P c ds members / physPerf (cond c) (detectedFull eng c.m ds members) :=
+  trimDet_logical_bound eng P c ds members N hp he hmix hN hK hpass
+
+/-- **results_trim_bound_detectors.**  Whenever the trimmed computation retains something, every reported probability
+is within `trimmed retained mass / retained mass` of the specification's conditioned distribution of detected
+patterns. -/
+theorem results_trim_bound_detectors (eng : Fock → D) (P : Prec) (c : Cfg) (ds : List Det)
+    (members : List Member) (N : ℕ) (hp : allPnr ds = false) (he : EngOK eng c.m members) (hmix : MixOK members)
+    (hN : ∀ mb ∈ members, mb.n ≤ N) (hK : KernsOK N (ds.map Det.kern))
+    (hret : mass (restrict (fun t => physOk (cond c) t && logicOk (cond c) t) (detTrimU eng P c ds members)) ≠ 0)
+    (t : Fock) :
+    |get (probsSvdDetθ eng P c ds members).results t -
+        get (conditioned (cond c) (detectedFull eng c.m ds members)) t| ≤
+      trimmedRetainedDet eng P c ds members / mass (retained (cond c) (detectedFull eng c.m ds members)) :=
+  trimDet_results_bound eng P c ds members N hp he hmix hN hK hret t
+
+/-- on an all-PNR layout the detector-path model is the fast-path model (so the fast-path theorems apply) -/
+theorem probsSvdDetθ_pnr (eng : Fock → D) (P : Prec) (c : Cfg) (ds : List Det) (members : List Member)
+    (hp : allPnr ds = true) : probsSvdDetθ eng P c ds members = probsSvdθ eng P { c with pnr := true } members := by
+  unfold probsSvdDetθ
+  simp [hp]
+
+/-! non-vacuity: `tCfg` (2 modes, herald 1 on mode 0, filter 0), one input `|1,2>`, a threshold detector on the heralded
+mode and an interleaved detector table on the data mode whose row for 2 photons is `{1: 1/4, 2: 3/4}`, precision 3/10:
+the per-state threshold is 3/10, the pattern `|1,1>` (probability 1/4) is removed by the pre-filter; the reported
+distribution is `{|2>: 1}` instead of `{|1>: 1/4, |2>: 3/4}` — distance 1/4 = trimmed retained mass / retained mass. -/
+
+def tCfg : Cfg := { m := 2, heralds := [(0, 1)], ps := .tt, userFilter := 0, keepHeralds := false, pnr := true }
+def tMembers : List Member := [⟨1, [[1, 2]]⟩]
+def tDets : List Det := [.thr, .table [[(0, 1)], [(1, 1)], [(1, 1/4), (2, 3/4)], [(1, 1/16), (2, 15/16)]]]
+def tPrec : Prec := ⟨3 / 10, 0⟩
+
+theorem tEng : EngOK idEng tCfg.m tMembers := by
+  refine ⟨?_, ?_, ?_⟩ <;> intro mb hmb s hs <;> simp [tMembers] at hmb <;> subst hmb <;> simp at hs <;> subst hs <;>
+    simp [idEng, tCfg, NN, Dist.mass]
+
+theorem tMix : MixOK tMembers := ⟨by simp [tMembers], by intro mb hmb; simp [tMembers] at hmb; subst hmb; norm_num⟩
+
+theorem tN : ∀ mb ∈ tMembers, mb.n ≤ 3 := by
+  intro mb hmb; simp [tMembers] at hmb; subst hmb; decide
+
+theorem tKerns : KernsOK 3 (tDets.map Det.kern) := by
+  refine ⟨?_, ?_, ?_⟩ <;> intro K hK k hk <;> simp [tDets] at hK <;> rcases hK with rfl | rfl <;>
+    interval_cases k <;> simp [Det.kern] <;> norm_num
+
+example : allPnr tDets = false ∧ trimmedMassDet idEng tPrec tCfg tDets tMembers = 1 / 4 ∧
+    trimmedRetainedDet idEng tPrec tCfg tDets tMembers = 1 / 4 ∧
+    mass (retained (cond tCfg) (detectedFull idEng tCfg.m tDets tMembers)) = 1 ∧
+    mass (restrict (fun t => physOk (cond tCfg) t && logicOk (cond tCfg) t) (detTrimU idEng tPrec tCfg tDets tMembers)) ≠ 0 := by
+  decide +kernel
+
+example : get (probsSvdDetθ idEng tPrec tCfg tDets tMembers).results [2] = 1 ∧
+    get (conditioned (cond tCfg) (detectedFull idEng tCfg.m tDets tMembers)) [2] = 3 / 4 := by
+  decide +kernel
+
+example (t : Fock) : |get (probsSvdDetθ idEng tPrec tCfg tDets tMembers).results t -
+      get (conditioned (cond tCfg) (detectedFull idEng tCfg.m tDets tMembers)) t| ≤
+    trimmedRetainedDet idEng tPrec tCfg tDets tMembers /
+      mass (retained (cond tCfg) (detectedFull idEng tCfg.m tDets tMembers)) :=
+  results_trim_bound_detectors idEng tPrec tCfg tDets tMembers 3 (by decide) tEng tMix tN tKerns (by decide +kernel) t
+
+example : |(probsSvdDetθ idEng tPrec tCfg tDets tMembers).phys -
+      physPerf (cond tCfg) (detectedFull idEng tCfg.m tDets tMembers)| ≤ trimmedMassDet idEng tPrec tCfg tDets tMembers :=
+  physical_perf_trim_bound_detectors idEng tPrec tCfg tDets tMembers 3 (by decide) tEng tMix tN tKerns
+
+/-! ### a-priori bounds: every threshold removes at most (threshold) × (number of entries of its stage)
+(`Lemmas/C04Apriori.lean`)
+
+`θ = p_threshold ≤ max(min_p, precision)`; a dropped member weighs at most `θ`; a missing entry of a member's product
+at most `θ/(10·w)` before and `θ/10` after weighting; a missing detected pattern of a state of probability `p` at most
+`p · max(θ, θ/(10p)) ≤ θ`.  Hence the deviations of `results`, `physical_perf`, `logical_perf` are bounded by an
+explicit function of the configured precision and of sizes (`aprioriFast`, `aprioriDet`): number of members, number of
+entries of the accumulated list (`length_codeRes_le`: at most Σ_members Π_groups |engine's distribution of the group|),
+number of entries of the list of detected patterns. -/
+
+/-- the threshold is at most `max(min_p, precision)` -/
+theorem threshold_le_precision (P : Prec) (c : Cfg) (members : List Member) (hmix : MixOK members)
+    (hprec : 0 ≤ P.prec) : pThreshold P c members ≤ max P.minp P.prec :=
+  pThreshold_le P c members hmix hprec
+
+/-- **trimmed_mass_apriori** (fast path): `trimmed mass ≤ θ · (#members passing the filter + #entries of the
+accumulated list / 10) ≤ max(min_p, precision) · (#members + #entries / 10)` -/
+theorem trimmed_mass_apriori (eng : Fock → D) (P : Prec) (c : Cfg) (members : List Member)
+    (he : EngOK eng c.m members) (hmix : MixOK members) (hg : ∀ mb ∈ members, mb.groups ≠ [])
+    (hminp : 0 ≤ P.minp) (hprec : 0 ≤ P.prec) :
+    trimmedMass eng P c members ≤
+      pThreshold P c members * (((kept c members).length : ℚ) + ((codeRes eng c members).length : ℚ) / 10) ∧
+    trimmedMass eng P c members ≤ aprioriFast eng P c members :=
+  ⟨trimmedMass_apriori eng P c members he hmix hg hminp,
+   trimmedMass_le_aprioriFast eng P c members he hmix hg hminp hprec⟩
+
+/-- the number of entries in that bound, from sizes only -/
+theorem accumulated_entries_le (eng : Fock → D) (c : Cfg) (members : List Member) :
+    (codeRes eng c members).length ≤
+      ((kept c members).map fun mb => (mb.groups.map fun s => (eng s).length).prod).sum :=
+  length_codeRes_le eng c members
+
+/-- **logical_perf_trim_apriori** (fast path): the logical performance is below the specification's by at most
+`aprioriFast / physical_perf` -/
+theorem logical_perf_trim_apriori (eng : Fock → D) (P : Prec) (c : Cfg) (members : List Member)
+    (wf : HeraldsWF c.m c.heralds) (he : EngOK eng c.m members) (hmix : MixOK members)
+    (hg : ∀ mb ∈ members, mb.groups ≠ []) (hminp : 0 ≤ P.minp) (hprec : 0 ≤ P.prec) :
+    (probsSvdθ eng P c members).logical ≤ logicalPerf (cond c) (full eng c.m members) ∧
+    logicalPerf (cond c) (full eng c.m members) - (probsSvdθ eng P c members).logical ≤
+      aprioriFast eng P c members / physPerf (cond c) (full eng c.m members) := by
+  obtain ⟨h1, h2, h3⟩ := logical_perf_trim_bound eng P c members wf he hmix
+  refine ⟨h1, ?_⟩
+  rw [h2]
+  refine le_trans h3 ?_
+  have hphys : 0 ≤ physPerf (cond c) (full eng c.m members) := by
+    rw [← physical_perf_trim_exact eng P c members he hmix, probsSvdθ, finishSvd_phys,
+      physInputs_eq c members hmix.wsum]
+    apply List.sum_nonneg
+    intro x hx
+    obtain ⟨mb, hmb, rfl⟩ := List.mem_map.1 hx
+    exact hmix.wpos mb (mem_kept hmb)
+  exact div_le_div_of_nonneg_right (trimmedMass_le_aprioriFast eng P c members he hmix hg hminp hprec) hphys
+
+/-- **results_trim_apriori** (fast path): every reported probability is within `aprioriFast / retained mass` of the
+specification's conditioned distribution -/
+theorem results_trim_apriori (eng : Fock → D) (P : Prec) (c : Cfg) (members : List Member)
+    (wf : HeraldsWF c.m c.heralds) (he : EngOK eng c.m members) (hmix : MixOK members)
+    (hg : ∀ mb ∈ members, mb.groups ≠ []) (hminp : 0 ≤ P.minp) (hprec : 0 ≤ P.prec)
+    (hret : mass (restrict (logicOk (cond c)) (codeResθ eng P c members)) ≠ 0) (t : Fock) :
+    |get (probsSvdθ eng P c members).results t - get (conditioned (cond c) (full eng c.m members)) t| ≤
+      aprioriFast eng P c members / mass (retained (cond c) (full eng c.m members)) := by
+  obtain ⟨h1, h2⟩ := results_trim_bound eng P c members wf he hmix hret t
+  refine le_trans h1 (le_trans h2 ?_)
+  have hR : 0 ≤ mass (retained (cond c) (full eng c.m members)) := by
+    rw [retained_eq eng c members wf he.shape]
+    exact ((NN_codeRes eng c members he.nonneg hmix.wpos).restrict _).mass_nonneg
+  exact div_le_div_of_nonneg_right (trimmedMass_le_aprioriFast eng P c members he hmix hg hminp hprec) hR
+
+/-- **trimmed_mass_det_apriori** (detector path): `trimmed mass ≤ θ · (#members passing the filter + #entries of the
+accumulated list / 10 + #entries of the list of detected patterns) ≤ aprioriDet` -/
+theorem trimmed_mass_det_apriori (eng : Fock → D) (P : Prec) (c : Cfg) (ds : List Det) (members : List Member)
+    (N : ℕ) (hp : allPnr ds = false) (he : EngOK eng c.m members) (hmix : MixOK members)
+    (hg : ∀ mb ∈ members, mb.groups ≠ []) (hminp : 0 ≤ P.minp) (hprec : 0 ≤ P.prec)
+    (hN : ∀ mb ∈ members, mb.n ≤ N) (hK : KernsOK N (ds.map Det.kern)) :
+    trimmedMassDet eng P c ds members ≤
+      pThreshold P c members * (((kept c members).length : ℚ) +
+        ((codeRes eng { c with pnr := false } members).length : ℚ) / 10 +
+        ((detFullU eng c ds members).length : ℚ)) ∧
+    trimmedMassDet eng P c ds members ≤ aprioriDet eng P c ds members :=
+  ⟨trimmedMassDet_apriori eng P c ds members N hp he hmix hg hminp hN hK,
+   trimmedMassDet_le_aprioriDet eng P c ds members N hp he hmix hg hminp hprec hN hK⟩
+
+/-- the number of detected patterns in that bound, from sizes only: per entry of the accumulated list, the product of
+the sizes of the per-mode detection rows -/
+theorem detected_entries_eq (Ks : List Kern) (d : D) :
+    (detect Ks d).length = ((d.map (·.1)).map fun s => ((rowsOf Ks s).map List.length).prod).sum := by
+  rw [length_detect]
+  congr 1
+  apply List.map_congr_left
+  intro s _
+  exact length_detectState Ks s
+
+/-- **physical_perf_trim_apriori_detectors**: `|physical_perf − exact| ≤ aprioriDet` -/
+theorem physical_perf_trim_apriori_detectors (eng : Fock → D) (P : Prec) (c : Cfg) (ds : List Det)
+    (members : List Member) (N : ℕ) (hp : allPnr ds = false) (he : EngOK eng c.m members) (hmix : MixOK members)
+    (hg : ∀ mb ∈ members, mb.groups ≠ []) (hminp : 0 ≤ P.minp) (hprec : 0 ≤ P.prec)
+    (hN : ∀ mb ∈ members, mb.n ≤ N) (hK : KernsOK N (ds.map Det.kern)) :
+    |(probsSvdDetθ eng P c ds members).phys - physPerf (cond c) (detectedFull eng c.m ds members)| ≤
+      aprioriDet eng P c ds members :=
+  le_trans (trimDet_phys_bound eng P c ds members N hp he hmix hN hK)
+    (trimmedMassDet_le_aprioriDet eng P c ds members N hp he hmix hg hminp hprec hN hK)
+
+/-- **results_trim_apriori_detectors**: every reported probability within `aprioriDet / retained mass` -/
+theorem results_trim_apriori_detectors (eng : Fock → D) (P : Prec) (c : Cfg) (ds : List Det)
+    (members : List Member) (N : ℕ) (hp : allPnr ds = false) (he : EngOK eng c.m members) (hmix : MixOK members)
+    (hg : ∀ mb ∈ members, mb.groups ≠ []) (hminp : 0 ≤ P.minp) (hprec : 0 ≤ P.prec)
+    (hN : ∀ mb ∈ members, mb.n ≤ N) (hK : KernsOK N (ds.map Det.kern))
+    (hret : mass (restrict (fun t => physOk (cond c) t && logicOk (cond c) t) (detTrimU eng P c ds members)) ≠ 0)
+    (t : Fock) :
+    |get (probsSvdDetθ eng P c ds members).results t -
+        get (conditioned (cond c) (detectedFull eng c.m ds members)) t| ≤
+      aprioriDet eng P c ds members / mass (retained (cond c) (detectedFull eng c.m ds members)) := by
+  refine le_trans (trimDet_results_bound eng P c ds members N hp he hmix hN hK hret t) ?_
+  obtain ⟨_, o2, o3, _⟩ := trimmedDet_order eng P c ds members N hp he hmix hN hK
+  have F := trimDetFacts eng P c ds members N hp he hmix hN hK
+  have hR : 0 ≤ mass (retained (cond c) (detectedFull eng c.m ds members)) := by
+    rw [retained_eq_restrict, F.specPass]
+    exact ((F.nnE.restrict _).restrict _).mass_nonneg
+  exact div_le_div_of_nonneg_right
+    (le_trans o2 (le_trans o3 (trimmedMassDet_le_aprioriDet eng P c ds members N hp he hmix hg hminp hprec hN hK))) hR
+
+/-- **logical_perf_trim_apriori_detectors**: within `aprioriDet / input-side physical performance + aprioriDet /
+physical performance` -/
+theorem logical_perf_trim_apriori_detectors (eng : Fock → D) (P : Prec) (c : Cfg) (ds : List Det)
+    (members : List Member) (N : ℕ) (hp : allPnr ds = false) (he : EngOK eng c.m members) (hmix : MixOK members)
+    (hg : ∀ mb ∈ members, mb.groups ≠ []) (hminp : 0 ≤ P.minp) (hprec : 0 ≤ P.prec)
+    (hN : ∀ mb ∈ members, mb.n ≤ N) (hK : KernsOK N (ds.map Det.kern))
+    (hpass : mass (restrict (physOk (cond c)) (detTrimU eng P c ds members)) ≠ 0) :
+    |(probsSvdDetθ eng P c ds members).logical - logicalPerf (cond c) (detectedFull eng c.m ds members)| ≤
+      aprioriDet eng P c ds members / physInputs c members +
+      aprioriDet eng P c ds members / physPerf (cond c) (detectedFull eng c.m ds members) := by
+  refine le_trans (trimDet_logical_bound eng P c ds members N hp he hmix hN hK hpass) ?_
+  obtain ⟨_, _, o3, o4⟩ := trimmedDet_order eng P c ds members N hp he hmix hN hK
+  have F := trimDetFacts eng P c ds members N hp he hmix hN hK
+  have hB := trimmedMassDet_le_aprioriDet eng P c ds members N hp he hmix hg hminp hprec hN hK
+  have hφ : 0 ≤ physInputs c members := le_trans F.nnA F.massLe
+  have hP : 0 ≤ physPerf (cond c) (detectedFull eng c.m ds members) := by
+    unfold physPerf
+    rw [F.specPass]
+    exact (F.nnE.restrict _).mass_nonneg
+  exact add_le_add (div_le_div_of_nonneg_right (le_trans o4 hB) hφ) (div_le_div_of_nonneg_right (le_trans o3 hB) hP)
+
+/-! non-vacuity of the a-priori bounds: `exCfg`, `exMembers`, precision 3/5 (one member dropped, trimmed mass 1/4): the
+bound is `3/10 · (2 + 2/10)`, and `max(min_p, precision) · (3 + 2/10)`; detector witness above: `3/10 · (1 + 1/10 + 2)`. -/
+
+example : trimmedMass idEng exPrec exCfg exMembers = 1 / 4 ∧
+    pThreshold exPrec exCfg exMembers * (((kept exCfg exMembers).length : ℚ) +
+      ((codeRes idEng exCfg exMembers).length : ℚ) / 10) = 33 / 50 ∧
+    aprioriFast idEng exPrec exCfg exMembers = 48 / 25 := by
+  decide +kernel
+
+example : trimmedMass idEng exPrec exCfg exMembers ≤ aprioriFast idEng exPrec exCfg exMembers :=
+  (trimmed_mass_apriori idEng exPrec exCfg exMembers exEng exMix (by decide) (by decide +kernel) (by decide +kernel)).2
+
+example : trimmedMassDet idEng tPrec tCfg tDets tMembers = 1 / 4 ∧ aprioriDet idEng tPrec tCfg tDets tMembers = 93 / 100 := by
+  decide +kernel
+
+example : trimmedMassDet idEng tPrec tCfg tDets tMembers ≤ aprioriDet idEng tPrec tCfg tDets tMembers :=
+  (trimmed_mass_det_apriori idEng tPrec tCfg tDets tMembers 3 (by decide) tEng tMix (by decide) (by decide +kernel)
+    (by decide +kernel) tN tKerns).2
 
 /-! ### what is still NOT a theorem
 
